@@ -23,6 +23,8 @@ type LoopSpec struct {
 	Decreases  *Clause
 	Uses       []Clause
 	Cut        bool
+	ByContract bool // the function's postconditions pin the result whatever the iteration order
+	BackAsserts []Clause // checked on every back-edge only ("the loop continues only if ...")
 	Unroll     int // >0: unroll instead of cutting (complete only if the bound is provably not exceeded)
 }
 
@@ -110,7 +112,7 @@ var reGhostField = regexp.MustCompile(`^ghost\s+field\s+(\w+)\.(\w+)\s+(\S+)\s*$
 var reFamily = regexp.MustCompile(`^family\s+(\w+)\.(\w+)\.(\w+)\s*\(([^)]*)\)\s*$`)
 var reDefault = regexp.MustCompile(`^default\s+\(\s*(\w+)\s+\*?(\w+)\s*\)\s*$`)
 var reLabel = regexp.MustCompile(`^([A-Za-z][\w.\-]*)\s*:\s*(.*)$`)
-var reLoop = regexp.MustCompile(`^loop\s+(\d+)\s*:?\s*(invariant|decreases|use|unroll)\s+(.*)$`)
+var reLoop = regexp.MustCompile(`^loop\s+(\d+)\s*:?\s*(invariant|decreases|use|unroll|continues-only-if|deterministic-by-contract)\s*(.*)$`)
 var reCall = regexp.MustCompile(`^call\s+([\w.]+#\d+)\s*:?\s*(assert|use|bind)\s+(.*)$`)
 
 func parseParams(s string) []Param {
@@ -360,6 +362,13 @@ func (cs *Contracts) loadFile(repo, file string) error {
 				ls.Invariants = append(ls.Invariants, mk(m[3]))
 				n := len(ls.Invariants) - 1
 				appendTo = func(s string) { ls.Invariants[n].Expr += " " + s }
+			case "deterministic-by-contract":
+				ls.ByContract = true
+				appendTo = nil
+			case "continues-only-if":
+				ls.BackAsserts = append(ls.BackAsserts, mk(m[3]))
+				n := len(ls.BackAsserts) - 1
+				appendTo = func(s string) { ls.BackAsserts[n].Expr += " " + s }
 			case "decreases":
 				c := Clause{Expr: m[3], Where: where}
 				ls.Decreases = &c
